@@ -126,6 +126,13 @@ UNITS['U29'] = dict(
                  'R5: bound `T: VecData<T>` reduced to `Copy + PartialEq`; R4: cmp::max on u32 replaced by verified vx_max_u32'],
     not_covered=['that group values come out in merge order and that merge_partitioned output is sorted within a group (needs consistency of == with the comparator and sortedness of the inputs inside groups)', 'the operator structs around the kernels (scratchpad plumbing)'])
 
+UNITS['U33'] = dict(
+    kind='verus', tpl='contracts/U33_fuse_nulls.vx', timeout_s=300,
+    title='fuse_nulls.rs: FuseNullsI64::execute, UnfuseNullsI64 presence bitmap (slice), FuseIntNulls<i64>::execute, UnfuseIntNulls<i64>::execute: a NULL row becomes the reserved value I64_NULL (sort keys) resp. 0 after shifting the values to >= 1 (grouping keys), and back',
+    assumptions=['R6: scratchpad bindings lifted to parameters', 'R4: vec![0u8; n] replaced by verified vx_zeroed, bitmap resize by verified vx_resize_bitmap', 'R5: FuseIntNulls<T> / UnfuseIntNulls<T> instantiated at T = i64 (T::zero() -> 0i64)',
+                 'A-reserved: i64::MAX is not part of the value domain (property C01 states it as reserved)', 'precondition of FuseIntNulls: every shifted value is >= 1 and fits (established by the planner: offset = 1 - min, U31k)'],
+    not_covered=['FuseNullsStr / FuseNullsF64', 'the u8 / u16 / u32 instances of FuseIntNulls / UnfuseIntNulls (same body, narrower arithmetic)'])
+
 UNITS['U03'] = dict(
     kind='verus', tpl='contracts/U03_stringpack.vx',
     title='stringpack.rs: PackedStrings::push, StringPackerIterator::next, PackedBytesIterator::{has_more,next}, IndexedPackedStrings::{push,len} + round-trip lemma',
@@ -356,6 +363,9 @@ UNITS['U25k'] = dict(
     + [dict(name='proofs::checked_%s_nulls' % h, unwind=5, bounded='the three nullability patterns (both / left / right operand nullable) with representative types; every buffer index; unwind 5',
             clause='rewrite of Checked%s: NullableChecked%s on the operands\' data with a presence bitmap from exactly the nullable operands' % (v, v), fn='propagate_nullability[Checked%s] + combine_nulls2' % v)
        for (h, v) in [('add', 'Add'), ('subtract', 'Subtract'), ('multiply', 'Multiply'), ('divide', 'Divide'), ('modulo', 'Modulo')]]
+    + [dict(name='proofs::%s' % h, unwind=5, bounded='representative types (NullableI64 input); every buffer index; unwind 5', clause=c, fn='propagate_nullability[%s]' % v)
+       for (h, v, c) in [('cast_nulls', 'Cast', 'null source == input; Cast on forget_nullability(input) into a fresh buffer'), ('floor_nulls', 'Floor', 'null source == input; Floor on the input data'), ('dict_lookup_nulls', 'DictLookup', 'null source == indices; lookup on the index data'),
+                         ('merge_keep_mixed_nullability', 'MergeKeep', 'the non-nullable side is wrapped by MakeNullable; MergeKeep then runs on two nullable sides, sides not swapped')]]
     + [dict(name='proofs::tag_tables', clause='is_nullable() is true exactly for the Nullable* types; non_nullable() maps each to its base type and is the identity elsewhere (every EncodingType)', fn='EncodingType::is_nullable / non_nullable'),
        dict(name='proofs::vx_canary', expect_fail=True)],
     assumptions=['precondition: a nullable result has at least one nullable operand (what the ASTBuilder type inference `null=lhs,rhs` produces; the proc-macro is not under contract)',
@@ -363,7 +373,7 @@ UNITS['U25k'] = dict(
                  'BufferProvider.shared_buffers (HashMap cache) dropped (R10); phantom payload types (MergeOp, Premerge, ValRows, RawVal, Val, Aggregator) are inert stand-ins',
                  'the semantics of CombineNullMaps / AssembleNullable / PropagateNullability / GetNullMap nodes is that of their operators (U01: combine_null_maps kernels)',
                  'symbolic operand types made CBMC exceed 64 GB (a Vec returned from either branch of combine_nulls is reallocated by push); the planner fns read a type only through is_nullable() / non_nullable(), which tag_tables covers completely'],
-    not_covered=['Cast, Floor, MergeKeep, DictLookup arms', 'the ASTBuilder-generated type inference and the executor wiring in query_plan::prepare'])
+    not_covered=['the ASTBuilder-generated type inference and the executor wiring in query_plan::prepare'])
 
 UNITS['U27k'] = dict(
     kind='kani', crate='kani/U27', timeout_s=600, mem_gb=8,
@@ -467,12 +477,12 @@ PROPS = {
                 level_note='per-partition planning, executor streaming, disk read scheduling and thread count are glue and not covered: the check catches a broken merge/combine primitive or a broken key-merge chain, not a broken executor',
                 technique='contract-based deductive verification (Verus + Kani complete harnesses) of extracted functions',
                 assumptions=[], not_covered=['executor stage partitioning / streaming', 'batch_merging::combine: ORDER BY branch and single-key branch', 'disk read scheduler']),
-    'C04': dict(level='proof', units=['U09k', 'U09v', 'U09m', 'U10', 'U19', 'U20k', 'U01', 'U29', 'U31k', 'U32k'],
+    'C04': dict(level='proof', units=['U09k', 'U09v', 'U09m', 'U10', 'U19', 'U20k', 'U01', 'U29', 'U31k', 'U32k', 'U33'],
                 level_text='complete Kani proofs of accumulate/combine kernels; Verus proofs of dedup-merge / merge_drop / merge_keep kernels and bitmap primitives',
                 level_note='grouping-key construction, hash-map grouping and the final pass are not covered',
                 technique='contract-based deductive verification (Verus + Kani complete harnesses) of extracted functions',
                 assumptions=[], not_covered=['hashmap_grouping*', 'try_bitpacking (float log2)']),
-    'C05': dict(level='proof', units=['U10', 'U11', 'U12k', 'U13k', 'U26', 'U29'],
+    'C05': dict(level='proof', units=['U10', 'U11', 'U12k', 'U13k', 'U26', 'U29', 'U33'],
                 level_text='Verus proof of merge (sorted, stable, limit) and of the sort kernels against assumed contracts of the std sorts (stable where stability is asked for, NULLs last / first when descending), complete Kani proofs of integer/float comparators and LIMIT/OFFSET window arithmetic; string comparators bounded',
                 level_note='the std sorts themselves are assumed (A-std-sort); the top-n driver and the planner choice between sort and top-n (and which sorts it requests as stable) are not covered',
                 technique='contract-based deductive verification (Verus + Kani) of extracted functions',
